@@ -31,7 +31,9 @@
 enum { OWN_SHARED_RO = -2, OWN_SHARED = -3 };
 typedef struct { const uint8_t *lo, *hi; int owner; const char *what; } Region;
 static Region regions[64]; static int nregions;
-typedef struct { uint8_t *ptr; size_t size; int owner; int live; } HeapRec;
+typedef struct { uint8_t *ptr; size_t size; int owner; int live; int seq; } HeapRec;
+static int heap_seq[4];   /* per-thread allocation counters (index 3: main context) */
+static int track_main_allocs;
 static HeapRec heap[256]; static int nheap;
 
 static void region_add(const void *p, size_t n, int owner, const char *what)
@@ -72,16 +74,28 @@ static void yield_to_sched(void) { int me = cur; swapcontext(&T[me].ctx, &main_c
 
 extern char __executable_start[], _end[], etext[], edata[];
 
+/* Location keys are independent of absolute heap addresses (which may differ from one
+ * execution to the next): (region id, offset), (allocating thread, allocation number,
+ * offset), or the absolute address for static memory. */
 static void on_access(void *addr, size_t size, int is_write)
 {
     const uint8_t *a = addr;
     int i, owner = 999;
-    uintptr_t g;
+    uintptr_t g, base = 0, first, lastg;
     if (!in_sched || cur < 0) return;
     if (a >= T[cur].stack && a < T[cur].stack + STACK_SZ) { ++n_private_accesses; return; }
-    for (i = 0; i < nheap; ++i) if (heap[i].live && a >= heap[i].ptr && a < heap[i].ptr + heap[i].size) { owner = heap[i].owner; break; }
-    if (owner == 999) for (i = 0; i < nregions; ++i) if (a >= regions[i].lo && a < regions[i].hi) { owner = regions[i].owner; break; }
+    for (i = 0; i < nheap; ++i) if (heap[i].live && a >= heap[i].ptr && a < heap[i].ptr + heap[i].size) {
+        owner = heap[i].owner;
+        base = ((uintptr_t)2 << 60) | ((uintptr_t)((heap[i].owner == OWN_SHARED_RO ? 3 : heap[i].owner) * 4096 + heap[i].seq) << 32); first = (uintptr_t)(a - heap[i].ptr);
+        break;
+    }
+    if (owner == 999) for (i = 0; i < nregions; ++i) if (a >= regions[i].lo && a < regions[i].hi) {
+        owner = regions[i].owner;
+        base = ((uintptr_t)1 << 60) | ((uintptr_t)i << 32); first = (uintptr_t)(a - regions[i].lo);
+        break;
+    }
     if (owner == cur) { ++n_private_accesses; return; }
+    if (owner == 999) { base = (uintptr_t)3 << 60; first = (uintptr_t)a & 0x0FFFFFFFFFFFFFFFULL; }
     ++n_shared_accesses;
     if (is_write) {
         if (owner == 999 && a >= (const uint8_t *)__executable_start && a < (const uint8_t *)_end) {
@@ -90,10 +104,12 @@ static void on_access(void *addr, size_t size, int is_write)
             if (!viol_ro_store) { viol_ro_store = 1; viol_addr = (uintptr_t)a; viol_thread = cur; viol_what = "object shared read-only"; }
         }
     }
-    for (g = (uintptr_t)a >> 3; g <= ((uintptr_t)a + size - 1) >> 3; ++g) {
-        Gran *e = gran(g);
+    lastg = (first + size - 1) >> 3;
+    for (g = first >> 3; g <= lastg; ++g) {
+        uintptr_t key = base | (g & 0xFFFFFFFFULL) | (base >> 60 == 3 ? (g & 0x0FFFFFFF00000000ULL) : 0);
+        Gran *e = gran(key);
         if (is_write) e->wr |= (uint8_t)(1 << cur); else e->rd |= (uint8_t)(1 << cur);
-        if (mode == MODE_EXPLORE && in_W(g)) { ++n_points_total; yield_to_sched(); break; }
+        if (mode == MODE_EXPLORE && in_W(key)) { ++n_points_total; yield_to_sched(); break; }
     }
 }
 
@@ -114,7 +130,13 @@ void __real_free(void *);
 void *__wrap_calloc(size_t n, size_t sz)
 {
     void *p = __real_calloc(n, sz);
-    if (in_sched && cur >= 0 && p && nheap < 256) { heap[nheap].ptr = p; heap[nheap].size = n * sz; heap[nheap].owner = cur; heap[nheap].live = 1; ++nheap; }
+    if ((in_sched || track_main_allocs) && p && nheap < 256) {
+        /* blocks allocated by the main context while it sets up the shared objects are shared read-only as a whole
+         * (whatever their private layout); blocks allocated by a thread belong to that thread */
+        int who = (in_sched && cur >= 0) ? cur : 3;
+        heap[nheap].ptr = p; heap[nheap].size = n * sz; heap[nheap].owner = who == 3 ? OWN_SHARED_RO : who; heap[nheap].live = 1;
+        heap[nheap].seq = heap_seq[who]++; ++nheap;
+    }
     return p;
 }
 void __wrap_free(void *p)
@@ -152,20 +174,19 @@ static int choices[MAXPOINTS];
 static void setup_regions(void)
 {
     int t;
-    nregions = 0; nheap = 0;
+    nregions = 0; nheap = 0; memset(heap_seq, 0, sizeof(heap_seq));
     for (t = 0; t < nthr; ++t) region_add(&ctxs[t], sizeof(Ctx), t, "thread context");
     region_add(&shared, sizeof(shared), OWN_SHARED_RO, "shared read-only objects");
-    if (shared.p128.ctx) region_add(shared.p128.ctx, sizeof(Skinny128Key_t), OWN_SHARED_RO, "shared parallel context");
-    if (shared.p64.ctx) region_add(shared.p64.ctx, sizeof(Skinny64Key_t), OWN_SHARED_RO, "shared parallel context");
-    if (shared.pm.ctx) region_add(shared.pm.ctx, sizeof(MantisKey_t), OWN_SHARED_RO, "shared parallel context");
 }
 
 static int run_execution(const int *prefix, int nprefix)
 {
     int t, last = -1;
-    if (!skip_shared_setup) shared_prepare(); else { memset(&shared, 0, sizeof(shared)); ctl_counter = 0; }
-    for (t = 0; t < nthr; ++t) ctx_prepare(t);
     setup_regions();
+    track_main_allocs = 1;
+    if (!skip_shared_setup) shared_prepare(); else { memset(&shared, 0, sizeof(shared)); ctl_counter = 0; }
+    track_main_allocs = 0;
+    for (t = 0; t < nthr; ++t) ctx_prepare(t);
     npoints = 0;
     for (t = 0; t < nthr; ++t) {
         T[t].done = 0; T[t].started = 0;
